@@ -415,6 +415,83 @@ def unreadable_worker(job):
     return st
 
 
+def deep_cwd_worker(job):
+    """find started in a working directory whose own absolute name is close to PATH_MAX, with a relative starting point: the directories
+    -execdir runs in have absolute names longer than PATH_MAX, but are perfectly reachable the way find reached them - every entry is
+    still delivered."""
+    k, nruns, seed = job
+    st = Stats()
+    rng = common.rng_for(seed, "C08d", k)
+    base = common.mkscratch("C08d%d" % k)
+    try:
+        for t in range(nruns):
+            top = os.path.join(base, "t%d" % t)
+            os.mkdir(top)
+            comps = []
+            total = len(top)
+            want_len = rng.choice([3700, 3900, 4050, 5000])
+            while total < want_len:
+                c_ = rng.choice("abcdefgh") * rng.choice([100, 200, 250])
+                comps.append(c_)
+                total += len(c_) + 1
+            fd = os.open(top, os.O_RDONLY | os.O_DIRECTORY)
+            for c_ in comps:
+                os.mkdir(c_, dir_fd=fd)
+                nfd = os.open(c_, os.O_RDONLY | os.O_DIRECTORY, dir_fd=fd)
+                os.close(fd)
+                fd = nfd
+            # the tree below the deep working directory: r/<A>/<B>/f*, built relative to the descriptor
+            names = []
+            cur, rel = fd, "r"
+            os.mkdir("r", dir_fd=fd)
+            cur = os.open("r", os.O_RDONLY | os.O_DIRECTORY, dir_fd=fd)
+            names.append("r")
+            for lvl in range(rng.choice([1, 2, 3])):
+                for f_ in ("f%d" % lvl, "g %d" % lvl):
+                    os.close(os.open(f_, os.O_CREAT | os.O_WRONLY, 0o644, dir_fd=cur))
+                    names.append(f_)
+                dn = rng.choice("xyz") * rng.choice([150, 240])
+                os.mkdir(dn, dir_fd=cur)
+                names.append(dn)
+                nfd = os.open(dn, os.O_RDONLY | os.O_DIRECTORY, dir_fd=cur)
+                os.close(cur)
+                cur = nfd
+            os.close(cur)
+            os.close(fd)
+
+            def pre(top=top, comps=comps):
+                os.chdir(top)
+                for c_ in comps:
+                    os.chdir(c_)
+            kind = rng.choice(["-execdir", "-execdir", "-exec"])
+            tag = "D%d_%d" % (k, t)
+            log = os.path.join(base, "rec-%d.log" % t)
+            args = [common.FIND, "r", kind, common.REC, tag, "{}", "+"]
+            rc, out, err, to = common.run_cmd(args, cwd=top, env=common.clean_env({"VERIF_REC_LOG": log}), timeout=120, preexec_fn=pre)
+            st.inc("evaluations")
+            st.inc("runs_from_a_working_directory_near_PATH_MAX")
+            st.inc("kind:" + kind)
+            st.add("distinct", ("deep-cwd", total, kind, len(names)))
+            got = []
+            for cwd_, argv in xref.read_reclog(log):
+                got += [a.decode().rsplit("/", 1)[-1] for a in argv[1:]]
+            rp = {"generator": "lib/c08.py deep_cwd_worker", "seed": seed, "k": k, "t": t, "cwd_bytes": total, "args": ["find", "r", kind, "rec", tag, "{}", "+"]}
+            problems = []
+            if to or rc in (101, 134, -6, -11):
+                problems.append("crashed or hung: exit %r, stderr %r" % (rc, err[-200:]))
+            else:
+                if sorted(got) != sorted(names):
+                    problems.append("delivered %d of %d entries (missing %r)" % (len(got), len(names), [n[:12] for n in sorted(set(names) - set(got))][:5]))
+                if rc != 0:
+                    problems.append("exit status %r, stderr %r" % (rc, err[-200:]))
+            if problems:
+                st.violate("exec-plus", None, {"args": rp["args"], "working_directory_bytes": total, "problems": problems}, rp)
+            common.force_rmtree(top)
+    finally:
+        common.force_rmtree(base)
+    return st
+
+
 def run(ctx):
     ctx.rule = ("(small) random/hostile trees from empty to 40 entries x 8 expression shapes (after tests, in -o, negated, -quit, two "
                 "+ actions, -depth, -maxdepth) x -exec/-execdir x 1-2 starting points x scripted failing invocations / missing command; "
@@ -424,6 +501,7 @@ def run(ctx):
     nw = common.NCPU
     n = ctx.scale(480, 96000)
     ctx.pmap(small_worker, [(k, n // nw, ctx.seed) for k in range(nw)])
+    ctx.pmap(deep_cwd_worker, [(k, ctx.scale(3, 120), ctx.seed) for k in range(nw)])
     ctx.pmap(unreadable_worker, [(k, ctx.scale(6, 400), ctx.seed) for k in range(nw)])
     if ctx.stats.c.get("unprivileged_runs_not_possible"):
         ctx.stats.notes.append("uid 65534 cannot execute the recorder from here: the unreadable-directory workload was not run")
